@@ -42,6 +42,12 @@ SPECS = {
     "std::result::Result::<T, E>::or_else": (RESULT, {"Ok": ("keep", "Ok"), "Err": ("call", 1)}, RESULT),
     "std::result::Result::<T, E>::unwrap_or_else": (RESULT, {"Ok": ("payload",), "Err": ("call", 1)}, None),
     "std::result::Result::<T, E>::map_or_else": (RESULT, {"Ok": ("call", 2), "Err": ("call", 1)}, None),
+    # presence tests: a match on the discriminant yielding a constant (so that a value tested twice — `x.is_some()`
+    # here, `if let Some(..) = x` there — is pruned and threaded like any other known variant)
+    "std::option::Option::<T>::is_some": (OPTION, {"Some": ("bool", 1), "None": ("bool", 0)}, None),
+    "std::option::Option::<T>::is_none": (OPTION, {"Some": ("bool", 0), "None": ("bool", 1)}, None),
+    "std::result::Result::<T, E>::is_ok": (RESULT, {"Ok": ("bool", 1), "Err": ("bool", 0)}, None),
+    "std::result::Result::<T, E>::is_err": (RESULT, {"Ok": ("bool", 0), "Err": ("bool", 1)}, None),
 }
 VIDX = {OPTION: {"None": 0, "Some": 1}, RESULT: {"Ok": 0, "Err": 1}}
 NFIELDS = {"None": 0, "Some": 1, "Ok": 1, "Err": 1}
@@ -490,20 +496,26 @@ def _rewrite(body, bi, t, spec, by_path):
         sl = Bd.local(sty)
         Bd.assign(bi, P(sl, sty), {"rv": "use", "op": subj})
     d = Bd.local("isize")
-    Bd.assign(bi, P(d, "isize"), {"rv": "discr", "pl": P(sl, sty)})
+    only_bool = all(act[0] == "bool" for act in actions.values())
+    if only_bool and sty.startswith("&"):
+        Bd.assign(bi, P(d, "isize"), {"rv": "discr", "pl": {"l": sl, "p": ["*"], "ty": sty.lstrip("&").replace("mut ", "", 1).strip()}})
+    else:
+        Bd.assign(bi, P(d, "isize"), {"rv": "discr", "pl": P(sl, sty)})
     arm_bb = {v: Bd.block() for v in actions}
     unreach = Bd.block()
     Bd.term(bi, {"t": "switch", "discr": mv(d, "isize"), "discr_ty": "isize", "arms": [[str(VIDX[subject_enum][v]), arm_bb[v]] for v in actions], "otherwise": unreach, "desugared": True})
     for v, act in actions.items():
         bb = arm_bb[v]
-        has_payload = NFIELDS[v] == 1
+        has_payload = NFIELDS[v] == 1 and act[0] != "bool"
         pay = None
         if has_payload:
             pay = Bd.local("?")
             Bd.assign(bb, P(pay), {"rv": "use", "op": {"k": "move", "pl": payload_place(sl, subject_enum, v)}})
         kind = act[0]
         cur = bb
-        if kind == "keep":
+        if kind == "bool":
+            Bd.assign(cur, P(dl, dty), {"rv": "use", "op": {"k": "const", "ty": "bool", "bits": str(act[1]), "size": 1, "int": str(act[1])}})
+        elif kind == "keep":
             V = act[1]
             enum = result_enum or subject_enum
             Bd.assign(cur, P(dl, dty), agg(enum, V, [mv(pay)] if has_payload else []))
